@@ -77,6 +77,11 @@ binding:  (replay jobs and the recording of histories run in 3 forked worker pro
           constructors.  code -> spec: random histories of 10-40 calls on random documents (1-3 paragraphs, duplicated
           fields, 257 fields, 257 comment lines, free paragraphs built on the way) validated by TLC; random
           format_field calls validated by TLC.
+faults:   notes/SIZE_STRESS.md part 5 -- caller-supplied objects that fail while they are read are ordinary steps of the
+          model (FaultOut: the caller's exception, nothing changed) and of both binding legs: a list of comment lines
+          whose iteration raises after k lines, a mapping whose items() raises after k items, a token iterator that
+          raises after k tokens (the identical valid call afterwards must answer as before), dump(fd) with an fd whose
+          k-th write fails; the history goes on with the ordinary calls.
 leaks:    all scratch documents and worlds of a run stay alive; caller-owned lists are mutated after the call;
           dump() is called twice; a second new_empty_file() created before the appends must stay empty; held elements
           are re-observed after every call; identical format_field calls are repeated and the generator is consumed
@@ -311,7 +316,11 @@ def describe_call(conc, c):
     bits = [c["op"]]
     if c["p"]:
         bits.append("paragraph %d" % c["p"])
-    if c["op"] in ("set", "del", "move"):
+    if c["op"] == "fset":
+        bits.append("field_comment = a list of %d lines whose iteration raises after %d" % (len(c["m"]["cl"]), c["j"]))
+    if c["op"] == "fdict":
+        bits.append("from_dict(mapping of %d items whose items() raises after %d)" % (len(c["it"]), c["j"]))
+    if c["op"] in ("set", "del", "move", "fset"):
         k = c["key"]
         bits.append("key %r%s" % (conc.spelled(k["n"], k["s"]), "" if k["i"] == -1 else " occurrence %d" % k["i"]))
     if c["op"] == "set":
@@ -341,7 +350,7 @@ def run_edge(scn, edge, cseed, stress, rseed, known):
             return "the start world could not be built: %s" % d
     res = world.apply(edge["call"], rng)
     v = judge(world, edge, res)
-    if edge["call"]["op"] == "set":
+    if edge["call"]["op"] in ("set", "fset"):
         API_COUNT[world.last_api] = API_COUNT.get(world.last_api, 0) + 1
     FORM_COUNT[conc.form] = FORM_COUNT.get(conc.form, 0) + 1
     for _ in world.kvparent_hits:
@@ -725,11 +734,11 @@ def run(ctx):
     # ---- code -> spec: record while TLC runs
     t1 = time.time()
     fc_traces, fc_seeds = [], []
-    plan = (["small"] * 110 + ["fields"] * 3 + ["lines"] * 3) if quick else (["small"] * 900 + ["fields"] * 20 + ["lines"] * 20)
+    plan = (["small"] * 110 + ["fields"] * 3 + ["lines"] * 3) if quick else (["small"] * 1800 + ["fields"] * 30 + ["lines"] * 30)
     rec_jobs = [(rng.getrandbits(32), size) for size in plan]
     rec_async = procs.map_async(_record_job, rec_jobs, chunksize=4)
     sf_events, sf_seeds, sf_info = [], [], []
-    for i in range(400 if quick else 6000):
+    for i in range(400 if quick else 12000):
         tseed = rng.getrandbits(32)
         size = "long" if i % 40 == 0 else "short"
         ev, info = FX.record_call(random.Random("x17-sf-%s" % tseed), size)
@@ -741,6 +750,12 @@ def run(ctx):
         for ev, info in interleaved(tseed):
             sf_events.append(ev)
             sf_seeds.append((tseed, "inter"))
+            sf_info.append(info)
+    for i in range(30 if quick else 300):
+        tseed = rng.getrandbits(32)
+        for ev, info in FX.record_fault(random.Random("x17-sff-%s" % tseed)):
+            sf_events.append(ev)
+            sf_seeds.append((tseed, "fault"))
             sf_info.append(info)
     for (tseed, size), (tr, err) in zip(rec_jobs, rec_async.get()):
         if err is not None:
@@ -804,7 +819,7 @@ def run(ctx):
                 rng.shuffle(paths)
                 paths = paths[:1500 if quick else 8000]
         else:
-            for _ in range(150 if quick else 1000):
+            for _ in range(150 if quick else 3000):
                 k, acc = start, []
                 for _d in range(depth):
                     outs = by_state.get(k)
@@ -1029,6 +1044,8 @@ def replay(ctx, case):
     if kind == "sftrace":
         if case["size"] == "inter":
             pairs = interleaved(case["seed"])
+        elif case["size"] == "fault":
+            pairs = FX.record_fault(random.Random("x17-sff-%s" % case["seed"]))
         else:
             pairs = [FX.record_call(random.Random("x17-sf-%s" % case["seed"]), case["size"])]
         rej, _ = validate_sf(ctx, [ev for ev, _ in pairs], with_controls=False)
